@@ -12,14 +12,15 @@ for m in sorted(glob.glob(os.path.join(VERIF, 'seeded', '*', 'meta.json'))):
     name = os.path.basename(os.path.dirname(m))
     res = c.get('check_results', {}).get(d['property'], {})
     rows.append((name, d['property'], d.get('summary', '').replace('|', '/'), d.get('needs', '').replace('|', '/'),
-                 'caught' if c.get('detected_by_own_property_check') else 'MISSED',
+                 'caught' if c.get('detected_by_own_property_check') else ('caught by ' + '/'.join(c.get('detected_by_checks', [])) + ' only' if c.get('detected_by_checks') else 'MISSED'),
                  res.get('first', '')[:160].replace('|', '/'), c.get('repo_head', '')))
 with open(os.path.join(VERIF, 'seeded', 'SUMMARY.md'), 'w') as f:
     f.write('# Seeded changes (made by independent sub-agents from the property text only)\n\n')
     f.write('Each: 111 tests green with the change, demo.py exits 1 with it and 0 without; verdict of `./check <prop> --tier quick` '
             'run against the changed tree by tools/eval_mutant.py.\n\n')
     n = sum(1 for r in rows if r[4] == 'caught')
-    f.write('%d of %d caught by their own property\'s check.\n\n' % (n, len(rows)))
+    n2 = sum(1 for r in rows if r[4].startswith('caught by'))
+    f.write('%d of %d caught by their own property\'s check; %d more only by the check of another property.\n\n' % (n, len(rows), n2))
     f.write('| id | property | change | needs | verdict | first line of the check | /repo HEAD |\n|---|---|---|---|---|---|---|\n')
     for r in rows:
         f.write('| %s |\n' % ' | '.join(r))
